@@ -26,6 +26,7 @@ type Loaded struct {
 	Tags     string
 	LoopVars map[string][]loopInfo // target func -> loops in source order
 	Stale    []string              // contract problems (stale contracts)
+	Repo     string
 }
 
 type loopInfo struct {
@@ -67,7 +68,8 @@ func Load(repo, tags string) (*Loaded, error) {
 	if len(p1.Errors) > 0 {
 		return nil, fmt.Errorf("package does not type-check: %v", p1.Errors[0])
 	}
-	L := &Loaded{Con: con, Tags: tags, LoopVars: map[string][]loopInfo{}}
+	applyKnown(con, preLoadKnown)
+	L := &Loaded{Con: con, Tags: tags, LoopVars: map[string][]loopInfo{}, Repo: repo}
 	ov, stale := genOverlay(p1, con, L)
 	L.Stale = append(L.Stale, stale...)
 	L.Stale = append(L.Stale, con.Errors...)
@@ -336,7 +338,7 @@ func genOverlay(p *packages.Package, con *Contracts, L *Loaded) (string, []strin
 			cl.FuncName = fmt.Sprintf("__c%d_%s", g.n, cl.Kind)
 			origin := fmt.Sprintf("//origin %s %s %s (%s:%d)\n", name, cl.Kind, cl.Label, filepath.Base(cl.File), cl.Line)
 			switch cl.Kind {
-			case "requires", "panics":
+			case "requires", "panics", "assumes":
 				e, err := rewriteSpec(cl.Text)
 				if err != nil {
 					stale = append(stale, fmt.Sprintf("%s:%d: %v", cl.File, cl.Line, err))
@@ -365,18 +367,12 @@ func genOverlay(p *packages.Package, con *Contracts, L *Loaded) (string, []strin
 					if s == "" {
 						continue
 					}
-					// assignment: rewrite both sides
-					if i := indexTop(s, " = "); i >= 0 {
-						l, err1 := rewriteSpec(s[:i])
-						r, err2 := rewriteSpec(s[i+3:])
-						if err1 != nil || err2 != nil {
-							stale = append(stale, fmt.Sprintf("%s:%d: bad ghost statement", cl.File, cl.Line))
-							continue
-						}
-						w("\t%s = %s\n", l, r)
-					} else {
-						stale = append(stale, fmt.Sprintf("%s:%d: ghost statement must be an assignment: %s", cl.File, cl.Line, s))
+					r, err := rewriteSpec(s)
+					if err != nil {
+						stale = append(stale, fmt.Sprintf("%s:%d: bad ghost statement", cl.File, cl.Line))
+						continue
 					}
+					w("\t%s\n", r)
 				}
 				w("}\n")
 			case "modifies":
